@@ -13,6 +13,7 @@ import (
 	"testing"
 	"time"
 
+	ssi "github.com/nuts-foundation/go-did"
 	"github.com/nuts-foundation/go-did/did"
 	"github.com/nuts-foundation/go-did/vc"
 	"github.com/nuts-foundation/nuts-node/crypto/jwx"
@@ -27,17 +28,48 @@ type c17VCCase struct {
 	V     jose.Variant `json:"v"`
 }
 
+// c17DIDResolver is the honest fake of DID resolution: every DID has exactly its own document. The real
+// resolver.DIDKeyResolver runs on top of it, so key ids are parsed and matched by the code the node uses.
+type c17DIDResolver struct {
+	docs map[string]*did.Document
+}
+
+func (r *c17DIDResolver) Resolve(id did.DID, _ *resolver.ResolveMetadata) (*did.Document, *resolver.DocumentMetadata, error) {
+	if d, ok := r.docs[id.String()]; ok {
+		return d, &resolver.DocumentMetadata{}, nil
+	}
+	return nil, nil, resolver.ErrNotFound
+}
+
+// add registers key under kid in the document of the DID that kid parses to. It refuses to put a key into a document
+// that already exists (the attacker never gets a key into the victim's document). Returns whether kid is resolvable.
+func (r *c17DIDResolver) add(kid string, key crypto.PublicKey) bool {
+	id, err := did.ParseDIDURL(kid)
+	if err != nil || id.DID.Empty() {
+		return false
+	}
+	if _, exists := r.docs[id.DID.String()]; exists {
+		return false
+	}
+	vm, err := did.NewVerificationMethod(*id, ssi.JsonWebKey2020, id.DID, key)
+	if err != nil {
+		return false
+	}
+	doc := &did.Document{ID: id.DID}
+	doc.AddAssertionMethod(vm)
+	r.docs[id.DID.String()] = doc
+	return true
+}
+
+// c17KeyResolver logs the key ids the consumer asks for and delegates to the real DIDKeyResolver.
 type c17KeyResolver struct {
-	keys  map[string]crypto.PublicKey
+	inner resolver.KeyResolver
 	asked []string
 }
 
-func (r *c17KeyResolver) ResolveKeyByID(keyID string, _ *resolver.ResolveMetadata, _ resolver.RelationType) (crypto.PublicKey, error) {
+func (r *c17KeyResolver) ResolveKeyByID(keyID string, md *resolver.ResolveMetadata, rt resolver.RelationType) (crypto.PublicKey, error) {
 	r.asked = append(r.asked, keyID)
-	if k, ok := r.keys[keyID]; ok {
-		return k, nil
-	}
-	return nil, resolver.ErrKeyNotFound
+	return r.inner.ResolveKeyByID(keyID, md, rt)
 }
 
 func (r *c17KeyResolver) ResolveKey(id did.DID, _ *time.Time, _ resolver.RelationType) (string, crypto.PublicKey, error) {
@@ -45,17 +77,30 @@ func (r *c17KeyResolver) ResolveKey(id did.DID, _ *time.Time, _ resolver.Relatio
 	return "", nil, errors.New("verif: ResolveKey is not part of signature verification")
 }
 
+// c17NewResolver builds the fixture: the victim's document, and the attacker's own document under the (possibly
+// near-miss) identity its key id parses to.
+func c17NewResolver(w jose.World, keys map[string]jose.Key) (kr *c17KeyResolver, attackerResolvable bool) {
+	dr := &c17DIDResolver{docs: map[string]*did.Document{}}
+	dr.add(w.Kids[jose.Victim], keys[jose.Victim].Public())
+	dr.add(w.Kids[jose.Attacker], keys[jose.Attacker].Public())
+	real := resolver.DIDKeyResolver{Resolver: dr}
+	k, err := real.ResolveKeyByID(w.Kids[jose.Attacker], nil, resolver.NutsSigningKeyType)
+	return &c17KeyResolver{inner: real}, err == nil && k != nil
+}
+
 const (
 	c17VictimDID   = "did:web:example.com:iam:victim"
 	c17AttackerDID = "did:web:example.com:iam:attacker"
 )
 
-func c17VCWorld(entry string) jose.World {
+func c17VCWorld(entry string, near string) jose.World {
 	w := jose.World{
 		KeyRef:  "kid",
 		Allowed: jwx.SupportedAlgorithmsAsStrings(),
-		Kids:    map[string]string{jose.Victim: c17VictimDID + "#0", jose.Attacker: c17AttackerDID + "#0", "unknown": "did:web:example.com:iam:nobody#0"},
-		Header:  jose.Header{jose.Str("typ", "JWT")},
+		Kids: map[string]string{jose.Victim: c17VictimDID + "#0", jose.Attacker: jose.NearKid(c17VictimDID, c17AttackerDID, "0", near),
+			"unknown": "did:web:example.com:iam:nobody#0"},
+		Header: jose.Header{jose.Str("typ", "JWT")},
+		Near:   near,
 	}
 	if entry == "vp" {
 		// the signer of a presentation is whoever the kid names: not bound to the victim at this layer
@@ -70,7 +115,7 @@ func c17VCWorld(entry string) jose.World {
 }
 
 func c17VCGen(t *rapid.T) c17VCCase {
-	return c17VCCase{Entry: rapid.SampledFrom([]string{"vc", "vc", "vp"}).Draw(t, "entry"), V: jose.Gen(t, jose.GenOpts{})}
+	return c17VCCase{Entry: rapid.SampledFrom([]string{"vc", "vc", "vp"}).Draw(t, "entry"), V: jose.Gen(t, jose.GenOpts{Near: true})}
 }
 
 func c17VCRun(x *h.Ctx, c c17VCCase) {
@@ -78,13 +123,13 @@ func c17VCRun(x *h.Ctx, c c17VCCase) {
 	if entry != "vp" {
 		entry = "vc"
 	}
-	w := c17VCWorld(entry)
+	w := c17VCWorld(entry, c.V.Near)
 	keys := jose.Keys(c.V)
 	b := jose.Build(w, c.V)
-	res := &c17KeyResolver{keys: map[string]crypto.PublicKey{
-		w.Kids[jose.Victim]:   keys[jose.Victim].Public(),
-		w.Kids[jose.Attacker]: keys[jose.Attacker].Public(),
-	}}
+	res, attackerResolvable := c17NewResolver(w, keys)
+	if c.V.Near != "" {
+		x.Classf("near-fixture:%s:attacker-key-resolvable=%v", c.V.Near, attackerResolvable)
+	}
 	sv := signatureVerifier{keyResolver: res}
 	var err error
 	stage := "parse"
